@@ -690,9 +690,9 @@ class C05(Spec):
     def correspond(self, ctx):
         driver = Driver("c05driver", "Earverif.Driver.C05")
         rng = ctx.rng
-        n_real = 4 if ctx.quick else 30
-        per_region = 10 if ctx.quick else 60
-        per_panner = 250 if ctx.quick else 4000
+        n_real = 4 if ctx.quick else 16
+        per_region = 10 if ctx.quick else 40
+        per_panner = 250 if ctx.quick else 2000
         lines, metas = [], []
 
         def add(line, what, inp, impl, amb, key, tol=TOL):
